@@ -94,6 +94,7 @@ func condFormatsAgree(w *World) func() (bool, string) {
 
 // C09: character maps.
 func propC09(w *World, r *Report) {
+	defer runDeadAccIn(w, r, "/cmap")
 	defer RunSearchMonotone(w, r, "/cmap")
 	e := NewEffects(w)
 	runDet(w, r, e, "C09")
@@ -114,6 +115,7 @@ func propC09(w *World, r *Report) {
 	checkExplicitDelta(w, r)
 	checkSegmentSkip(w, r)
 	checkSegDelta(w, r)
+	checkFormat0Len(w, r)
 	checkPlatformRange(w, r)
 	r.Floor("segmentskip", 1)
 	checkOverlapStrict(w, r, newBoundsRun(w))
